@@ -31,7 +31,7 @@ def ctrl_features(p):
 def ctrl_case(ctx, p):
     code = spaces.render(p)
     r = compare(code)
-    ctx.ran(2)
+    ctx.ran(2 if r.verdict != "unspec" else 1)
     st = r.impl[1]
     ctx.state((code,))
     if r.verdict == 'agree':
@@ -68,7 +68,7 @@ def rec_case(ctx, p):
 def malformed_case(ctx, case):
     p, kind, pos, code = case
     r = compare(code)
-    ctx.ran(2)
+    ctx.ran(2 if r.verdict != "unspec" else 1)
     ctx.state((code,))
     if r.verdict == 'agree':
         ctx.outcome('agree:' + r.why)
@@ -84,7 +84,7 @@ def step_case(ctx, case):
     code, cfg = case
     ro, cache0, flags, limits, contracts = stepspace.config(cfg, ctx.seed)
     r = compare(code, ro=ro, cache0=cache0, flags=flags, limits=limits, contracts=contracts)
-    ctx.ran(2)
+    ctx.ran(2 if r.verdict != "unspec" else 1)
     ctx.state((code, cfg))
     ctx.trans()
     if r.verdict == 'agree':
